@@ -1,6 +1,6 @@
 \* StaticSound, command-free family (quick): lengths 0..3 x every slice x start x loop region (incl. end = length and
 \* "end of audio") x reverse x rates +-{1, 1/2, 2} x chunk sizes {1,2,3}, 12 output frames per session.
-\* Measured: 3978 settings, 489 976 distinct states, 12 s with 4 workers.  checks/c04.py runs the same family through
+\* Measured: 485 743 distinct states, 12 s with 4 workers.  checks/c04.py runs the same family through
 \* Gen_StaticSound (bounded-exhaustive generation + the same invariants); thorough: lengths 0..4 (and 5..6 without replay).
 \* run: tlc -workers 4 -config StaticSound_base_q.cfg MC_StaticSound.tla
 SPECIFICATION Spec
